@@ -49,6 +49,7 @@ class C20(Prop):
         "NV.C20.tie_master_write_dominated", "NV.C20.tie_bind_write_dominated",
         "NV.C20.tie_export_semantics", "NV.C20.tie_seteuid_int_semantics", "NV.C20.tie_seteuid_str_semantics",
         "NV.C20.tie_reload_semantics", "NV.C20.tie_set_master_semantics", "NV.C20.tie_set_master_noroot",
+        "NV.C20.tie_premaster_semantics",
     ]
     consts = [("autoTrustBackbone", "NV_AUTO_TRUST_BACKBONE"), ("autoSeteuid", "NV_AUTO_SETEUID"),
               ("tNumber", "T_NUMBER"), ("tString", "T_STRING"), ("msMudlibLimbo", "MS_MUDLIB_LIMBO"),
